@@ -447,7 +447,7 @@ Proof. intros H. unfold next_data. rewrite H. reflexivity. Qed.
 (* a PAT (PID 0) or a PMT (registered PID) whose sections are complete is flushed by the packet that completes it *)
 Theorem early_flush pm pid q p : (Z.eqb pid C_PIDPAT || pm_mem pm pid) = true ->
   isSameAsPrevious q p = false ->
-  let q1 := if hasDiscontinuity q p then [] else q in
+  let q1 := if resets q p then [] else q in
   let q2 := if pusi p then [] else q1 in
   is_psi_complete (q2 ++ [p]) = true ->
   acc_add pm pid q p = ([], q2 ++ [p]).
